@@ -75,12 +75,12 @@ def run(ctx):
     scen = []
     kinds = ["key", "inter", "inter", "aud", "meta"]
     for n in (1, 2, 3):
-        cfg = write_cfg("MC_Backpressure_gen_%d.cfg" % n, "GSpec", n, 1, False, 5 if q else 6, 3 if q else 4, 2,
+        cfg = write_cfg("MC_Backpressure_gen_%d.cfg" % n, "GSpec", n, 1, False, 4 if q else 6, 3 if q else 4, 2,
                         2 if q else 3, True, invs="Quiescent QueueBound WholeUnits", view="GView", emit=True, maxleave=1)
         res = E.tlc(ctx, "MC_Backpressure", cfg, timeout=1500, deadlock=False)
         E.require_design_ok(ctx, res, cfg)
         g = E.Graph.load(res)
-        paths, ncov = g.edge_cover(ctx.rng, max_len=22, max_paths=100 if q else 1400)
+        paths, ncov = g.edge_cover(ctx.rng, max_len=22, max_paths=90 if q else 1400)
         ctx.log("schedules N=%d: %d abstract states, %d edges, %d paths (%d edges covered)" %
                 (n, res["distinct"], g.nedges, len(paths), ncov))
         for p in paths:
